@@ -48,6 +48,10 @@ type upgTarget struct {
 	// another key set in the block right before the first attempt (one key
 	// replaced / one added / a single fresh key) and given back afterwards
 	Redes int
+	// the `data` handed to update when the version relation forbids it anyway:
+	// 0 what deploy/ passes, 1 a leading supported version number, 2 the same
+	// followed by more items (whatever is passed, the refusal must stand)
+	Data int
 }
 
 func genUpgTarget(t *rapid.T) upgTarget {
@@ -60,6 +64,7 @@ func genUpgTarget(t *rapid.T) upgTarget {
 	}
 	u.Twice = Chance(t, "twice?", 25)
 	u.Redes = Weighted(t, "redesignate", []int{55, 15, 15, 15})
+	u.Data = Weighted(t, "updateData", []int{60, 20, 20})
 	return u
 }
 
@@ -125,7 +130,14 @@ func upgradeBody(r *Run) {
 				signers = []Signer{w.Committee.WithScope(transaction.None)}
 			}
 			var giveBack []any
-			if (d.Repo == "neofs" || d.Repo == "processing") && tg.Redes > 0 {
+			if (d.Repo == "neofs" || d.Repo == "processing") && !roleHeldByCommittee(w) {
+				// the shadowed history itself has given the role to other keys
+				// (whose private halves this check does not hold): the committee's
+				// account is then simply not the one that decides
+				if tg.Sig == 0 || tg.Sig == 1 {
+					okSig = false
+				}
+			} else if (d.Repo == "neofs" || d.Repo == "processing") && tg.Redes > 0 {
 				if newMaj, back, ok := redesignate(r, w, tg.Redes); ok {
 					giveBack = back
 					// the role changes hands with the next block: the attempts below
@@ -141,9 +153,18 @@ func upgradeBody(r *Run) {
 			if !okSig {
 				r.Inject("upgrade.signer")
 			}
-			script := CallScript(d.Hash, "update", newA.NEFBytes, newA.ManBytes, updateArgs(d.Repo))
+			var data any = updateArgs(d.Repo)
+			if tg.NewRel >= 1 && tg.NewRel <= 3 && tg.Data > 0 {
+				data = []any{prev + 1}
+				if tg.Data == 2 {
+					data = []any{cur - 1, "some", "more"}
+				}
+				r.Inject("upgrade.data")
+				r.Fired("upgrade.data")
+			}
+			script := CallScript(d.Hash, "update", newA.NEFBytes, newA.ManBytes, data)
 			if d.Repo == "nns" {
-				script = CallScript(d.Hash, "update", newA.NEFBytes, string(newA.ManBytes), updateArgs(d.Repo))
+				script = CallScript(d.Hash, "update", newA.NEFBytes, string(newA.ManBytes), data)
 			}
 			attempts := 1
 			if tg.Twice {
@@ -283,6 +304,28 @@ func upgradeBody(r *Run) {
 		r.Count("runs_where_history_ended_before_upgrade_point")
 	}
 	r.foreign = ""
+}
+
+// roleHeldByCommittee: the keys holding the NeoFSAlphabet role from the next
+// block on are exactly the chain committee's.
+func roleHeldByCommittee(w *World) bool {
+	it, err := w.readNoHook(w.Roles, "getDesignatedByRole", int64(16), int64(w.Height()+1))
+	if err != nil {
+		return false
+	}
+	have := map[string]bool{}
+	for _, k := range ItemArr(it) {
+		have[string(ItemBytes(k))] = true
+	}
+	if len(have) != len(w.Pubs) {
+		return false
+	}
+	for _, p := range w.Pubs {
+		if !have[string(p.Bytes())] {
+			return false
+		}
+	}
+	return true
 }
 
 // redesignate gives the NeoFSAlphabet role to another key set (committee
